@@ -55,18 +55,20 @@ pub enum RepayKind {
     Zero,
     Double,
     Plus1000,
+    /// absolute amount chosen by the harness
+    Custom(u64),
 }
 
 #[derive(Clone, Debug, Serialize, Deserialize, PartialEq, Eq, Hash)]
 pub enum Step {
     Repay(RepayKind),
     Fail,
-    Deposit(u128),
-    WithdrawShares(u128),
+    Deposit(u64),
+    WithdrawShares(u64),
     Collect,
     UpdateConfigAttempt,
     CallAfterTrade,
-    Nested { amount: u128, sub: Vec<Step> },
+    Nested { amount: u64, sub: Vec<Step> },
 }
 
 #[derive(Clone, Debug, Serialize, Deserialize)]
@@ -221,7 +223,7 @@ pub fn loans_in(amount: u128, script: &[Step]) -> Vec<u128> {
     let mut v = vec![amount];
     for s in script {
         if let Step::Nested { amount, sub } = s {
-            v.extend(loans_in(*amount, sub));
+            v.extend(loans_in(*amount as u128, sub));
         }
     }
     v
@@ -242,13 +244,16 @@ pub fn compile(h: &VH, f: &Fee3, loan: u128, script: &[Step]) -> Vec<CosmosMsg> 
                     RepayKind::Zero => 0,
                     RepayKind::Double => exact * 2,
                     RepayKind::Plus1000 => exact + 1000,
+                    RepayKind::Custom(x) => *x as u128,
                 };
                 if let Some(m) = pay_msg(h, &h.vault, amt) {
                     out.push(m);
                 }
             }
             Step::Fail => out.push(wasm(&h.adversary, to_json_binary(&AdvMsg::Fail {}).unwrap(), vec![])),
-            Step::Deposit(a) => match &h.asset {
+            Step::Deposit(a) => {
+                let a = &(*a as u128);
+                match &h.asset {
                 AssetInfo::NativeToken { denom } => out.push(wasm(&h.vault, to_json_binary(&VaultExec::Deposit { amount: Uint128::new(*a) }).unwrap(), vec![coin(*a, denom)])),
                 AssetInfo::Token { contract_addr } => {
                     out.push(wasm(
@@ -258,12 +263,13 @@ pub fn compile(h: &VH, f: &Fee3, loan: u128, script: &[Step]) -> Vec<CosmosMsg> 
                     ));
                     out.push(wasm(&h.vault, to_json_binary(&VaultExec::Deposit { amount: Uint128::new(*a) }).unwrap(), vec![]));
                 }
-            },
+            }
+            }
             Step::WithdrawShares(k) => out.push(wasm(
                 &h.lp,
                 to_json_binary(&cw20::Cw20ExecuteMsg::Send {
                     contract: h.vault.clone(),
-                    amount: Uint128::new(*k),
+                    amount: Uint128::new(*k as u128),
                     msg: to_json_binary(&white_whale_std::vault_network::vault::Cw20HookMsg::Withdraw {}).unwrap(),
                 })
                 .unwrap(),
@@ -289,10 +295,10 @@ pub fn compile(h: &VH, f: &Fee3, loan: u128, script: &[Step]) -> Vec<CosmosMsg> 
                 vec![],
             )),
             Step::Nested { amount, sub } => {
-                let inner = compile(h, f, *amount, sub);
+                let inner = compile(h, f, *amount as u128, sub);
                 out.push(wasm(
                     &h.vault,
-                    to_json_binary(&VaultExec::FlashLoan { amount: Uint128::new(*amount), msg: to_json_binary(&AdvMsg::Forward { msgs: inner }).unwrap() }).unwrap(),
+                    to_json_binary(&VaultExec::FlashLoan { amount: Uint128::new(*amount as u128), msg: to_json_binary(&AdvMsg::Forward { msgs: inner }).unwrap() }).unwrap(),
                     vec![],
                 ));
             }
@@ -339,7 +345,6 @@ pub fn observe(w: &World, h: &VH) -> LoanObs {
 #[allow(clippy::too_many_arguments)]
 pub fn loan_oracles(cx: &mut Cx, w: &World, h: &VH, f: &Fee3, amount: u128, script: &[Step], r: &TxResult, pre: &LoanObs, post: &LoanObs, prefix: &str) {
     let nested = script.iter().any(|s| matches!(s, Step::Nested { .. }));
-    let sig = if nested { "nested-loan" } else { "" };
     match r {
         Ok(_) => {
             cx.count(&format!("{prefix}loan:ok"));
@@ -350,7 +355,12 @@ pub fn loan_oracles(cx: &mut Cx, w: &World, h: &VH, f: &Fee3, amount: u128, scri
             if p + fl + bu > 0 {
                 cx.count(&format!("{prefix}loan:ok_with_fees"));
             }
-            cx.check_sig("loan.vault_balance_grows_by_all_fees", sig, post.vault_bal + (post.collector - pre.collector) >= pre.vault_bal + p + fl, || {
+            // known-finding class: with nested loans the outermost loan's own fees are paid but the
+            // inner loans' fees can be offset against the outer repayment
+            let outer_paid = post.vault_bal + (post.collector - pre.collector) >= pre.vault_bal + fee_of(f.protocol, amount) + fee_of(f.swap, amount);
+            let sig = if nested && outer_paid { "nested-loan-inner-fees-offset" } else { "" };
+            // (this clause belongs to C06; the C05 BFS passes prefix "c05:" and relies on the share-price oracle)
+            cx.check_sig("loan.vault_balance_grows_by_all_fees", sig, prefix == "c05:" || post.vault_bal + (post.collector - pre.collector) >= pre.vault_bal + p + fl, || {
                 format!(
                     "loan {} script {:?}: vault balance {} -> {} (collector +{}) but protocol+flash fees of completed loans are {}+{}",
                     amount,
@@ -447,11 +457,26 @@ impl Scenario for VaultScn {
         } else {
             vec![vec![Step::Repay(RepayKind::Exact)], vec![Step::Repay(RepayKind::Plus1000)], vec![Step::Repay(RepayKind::Minus1)], vec![Step::Fail]]
         };
+        // nested loans (C05): an honest one, and one whose outer repayment is short by exactly the
+        // protocol+flash fees the inner loan paid
+        let mut nested_scripts: Vec<(u128, Vec<Step>)> = vec![];
+        if !c07 && bal >= 4000 && bal < (1u128 << 60) {
+            let outer = 1000u128;
+            let inner = (bal / 2) as u64;
+            let inner_pf = fee_of(f.protocol, inner as u128) + fee_of(f.swap, inner as u128);
+            let exact_outer = outer + fee_of(f.protocol, outer) + fee_of(f.swap, outer) + fee_of(f.burn, outer);
+            let nest = Step::Nested { amount: inner, sub: vec![Step::Repay(RepayKind::Exact)] };
+            nested_scripts.push((outer, vec![nest.clone(), Step::Repay(RepayKind::Exact)]));
+            nested_scripts.push((outer, vec![nest, Step::Repay(RepayKind::Custom(exact_outer.saturating_sub(inner_pf) as u64))]));
+        }
         if bal > 0 {
             for a in &amts {
                 for s in &scripts {
                     v.push(VAct::Loan { amount: a.to_string(), script: s.clone() });
                 }
+            }
+            for (a, s) in nested_scripts {
+                v.push(VAct::Loan { amount: a.to_string(), script: s });
             }
         }
         v.push(VAct::Collect { user: MALLORY.to_string() });
@@ -549,7 +574,12 @@ impl Scenario for VaultScn {
                         cx.count("loan:burn_fee>0");
                     }
                 }
-                loan_oracles(cx, w, h, &f, amount, script, &r, &pre, &post, "");
+                loan_oracles(cx, w, h, &f, amount, script, &r, &pre, &post, if self.property == "C05" { "c05:" } else { "" });
+                if r.is_ok() {
+                    cx.count("loan:ok");
+                } else {
+                    cx.count("loan:reverted");
+                }
                 if script == &[Step::Repay(RepayKind::Exact)] {
                     cx.check("loan.exact_payback_suffices", r.is_ok(), || format!("loan {} repaid with exactly the quoted amount was rejected: {}", amount, r.as_ref().err().map(|e| e.msg().to_string()).unwrap_or_default()));
                 }
@@ -617,7 +647,7 @@ impl Scenario for VaultScn {
             let lhs = b(post.vault_bal - post.pending.min(post.vault_bal)) * b(pre.lp_supply);
             let rhs = b(pre.vault_bal - pre.pending) * b(post.lp_supply);
             let nested = matches!(a, VAct::Loan { script, .. } if script.iter().any(|s| matches!(s, Step::Nested { .. })));
-            cx.check_sig("share_price.non_decreasing", if nested { "nested-loan" } else { "" }, lhs >= rhs, || {
+            cx.check_sig("share_price.non_decreasing", if nested { "nested-loan-inner-fees-offset" } else { "" }, lhs >= rhs, || {
                 format!("{:?}: backing per share fell: ({} - {})/{} -> ({} - {})/{}", a, pre.vault_bal, pre.pending, pre.lp_supply, post.vault_bal, post.pending, post.lp_supply)
             });
         }
